@@ -285,6 +285,7 @@ theorem runCatch_shape (env : Env) (lang : Option Bytes) (b : Bytes) :
   apply Keeps.ite
   · apply Keeps.bind P (logMove_shape _ _); intro _
     apply Keeps.bind P (applyTarget_shape _); intro _
+    apply Keeps.bind P vmReset_shape; intro _
     exact getCodeM_shape _ _ _
   · exact Keeps.pure P _
 
